@@ -596,4 +596,17 @@ theorem kernel_int_checked_div_decimal (prof : Profile) (tm : Mode) (i : Int) (d
     Gen.K.int_checked_div_decimal prof tm i d = checkedOfChecked (eqZero d) (divIntDec prof tm i d) :=
   Kernels.int_checked_div_decimal_eq prof tm i d hi
 
+/-- the integer forms of `div_rounded` (Decimal/int, int/Decimal, int/int), as translated on this run; the int/int body has no
+    `n_frac_digits` guard — the open finding D8 is visible in the translation itself -/
+theorem kernel_decimal_div_rounded_int (prof : Profile) (tm : Mode) (d : Dec) (i : Int) (n : Nat) (hd : fitsI128 d.coeff = true)
+    (hp : d.nfrac ≤ 38) :
+    Gen.K.decimal_div_rounded_int prof tm d i n = divRoundedDecInt prof tm d i n :=
+  Kernels.decimal_div_rounded_int_eq prof tm d i n hd hp
+theorem kernel_int_div_rounded_decimal (prof : Profile) (tm : Mode) (i : Int) (d : Dec) (n : Nat) (hi : fitsI128 i = true) :
+    Gen.K.int_div_rounded_decimal prof tm i d n = divRoundedIntDec prof tm i d n :=
+  Kernels.int_div_rounded_decimal_eq prof tm i d n hi
+theorem kernel_int_div_rounded_int (prof : Profile) (tm : Mode) (i j : Int) (n : Nat) (hi : fitsI128 i = true) :
+    Gen.K.int_div_rounded_int prof tm i j n = divRoundedIntInt prof tm i j n :=
+  Kernels.int_div_rounded_int_eq prof tm i j n hi
+
 end Fpdec.Props.C04
